@@ -862,6 +862,73 @@ func c09PacketS2R(c *core.Ctx, k c09Case) {
 	c.Res.TracesValidated++
 }
 
+// cipher level, arbitrary instants: the real stateful (implicit nonce) cipher of the slot of an
+// arbitrary instant seals a sequence of messages; the reference opens message i with nonce0 + i
+// and the key it derives for that instant — and the other way round.
+func c09CipherSeq(c *core.Ctx, k c09Case) {
+	cr := credOf(k)
+	t := time.Unix(0, k.UnixNs)
+	blocks, err := cipher.VerifBlockCipherListAt(cr.hp, t, false)
+	if err != nil {
+		c.Violate("C09/cipher/setup", err.Error(), k)
+		return
+	}
+	enc := blocks[1]
+	enc.SetBlockContext(cipher.BlockContext{UserName: string(cr.user)})
+	keys := strings.Fields(c.Model.Ask("spec-keys %s %s %d", k.User, k.Pass, t.Unix()))
+	if len(keys) != 4 {
+		c.Disagree("C09/corr/spec-keys", strings.Join(keys, " "), k)
+		return
+	}
+	c.Eval(fmt.Sprintf("cipher-seq/%s/%s/%d/%v", k.User, k.Pass, k.UnixNs, k.Sizes), true)
+	var nonce0 []byte
+	for i, n := range k.Sizes {
+		pt := seededBytes(k.ChunkSeed+int64(i), n)
+		dst := make([]byte, 0, n+40)
+		if err := enc.Encrypt(dst, pt); err != nil {
+			c.Violate("C09/cipher/encrypt-error", err.Error(), k)
+			return
+		}
+		out := dst[:cap(dst)]
+		if i == 0 {
+			out = out[:24+n+16]
+			nonce0 = append([]byte(nil), out[:24]...)
+			out = out[24:]
+			if m := c.Model.Ask("spec-hint-check %s %s", k.User, core.Hex(nonce0)); m != "ok true" {
+				c.Violate("C09/cipher/hint", "the first nonce of a stateful cipher does not carry the documented user hint", k)
+			}
+		} else {
+			out = out[:n+16]
+		}
+		ni := strings.TrimPrefix(c.Model.Ask("spec-nth-nonce %s %d", core.Hex(nonce0), i), "ok ")
+		got := c.Model.Ask("crypto-xopen %s %s %s -", keys[2], ni, core.Hex(out))
+		c.Compared()
+		if got != "ok "+core.Hex(pt) {
+			c.Violate("C09/cipher/real-to-spec", fmt.Sprintf("encryption %d of a stateful cipher (instant %d ns) does not open under (key of the slot, nonce0 + %d): %s", i, k.UnixNs, i, c09Trunc(got)), k)
+			return
+		}
+	}
+	// reference -> real stateful decryption
+	dec := blocks[1].Clone()
+	dec.SetImplicitNonceMode(false)
+	dec.SetImplicitNonceMode(true)
+	n0 := core.UnHex(k.Nonce)
+	for i, n := range k.Sizes {
+		pt := seededBytes(k.ChunkSeed+100+int64(i), n)
+		ni := strings.TrimPrefix(c.Model.Ask("spec-nth-nonce %s %d", core.Hex(n0), i), "ok ")
+		ct := core.UnHex(strings.TrimPrefix(c.Model.Ask("crypto-xseal %s %s %s -", keys[2], ni, core.Hex(pt)), "ok "))
+		if i == 0 {
+			ct = append(append([]byte(nil), n0...), ct...)
+		}
+		got, err := dec.Decrypt(ct)
+		c.Compared()
+		if err != nil || !bytes.Equal(got, pt) {
+			c.Violate("C09/cipher/spec-to-real", fmt.Sprintf("message %d sealed per the document (instant %d ns, nonce0 + %d) is not decrypted by the stateful cipher: %v", i, k.UnixNs, i, err), k)
+			return
+		}
+	}
+}
+
 // ---------------------------------------------------------------------------------------------
 // 4. UDP associate encapsulation
 
@@ -939,6 +1006,8 @@ func c09Run(c *core.Ctx, k c09Case) {
 		c09PacketS2R(c, k)
 	case k.Kind == "assoc":
 		c09Assoc(c, k)
+	case k.Kind == "cipher-seq":
+		c09CipherSeq(c, k)
 	}
 }
 
@@ -1085,6 +1154,7 @@ func init() {
 			c.Correspondence("spec-hashpw/spec-keys/spec-salt/spec-hint: pkg/cipher HashPassword, newBlockCipherList, saltFromTime, addUserHintToNonce, CheckUserFromHint vs Mieru.Model.SpecCrypto")
 			c.Correspondence("spec-meta-enc/dec, spec-offsets: pkg/protocol sessionStruct/dataAckStruct Marshal/Unmarshal vs Mieru.Spec.Meta")
 			c.Correspondence("spec-incr, c09-incr-go: pkg/cipher increaseNonce vs Mieru.Spec.incr / incrGo")
+			c.Correspondence("crypto-xopen/xseal + spec-nth-nonce + spec-keys: aeadBlockCipher.Encrypt/Decrypt in implicit-nonce mode at arbitrary instants vs the reference")
 			c.Correspondence("spec-tcp-feed/spec-tcp-seal: StreamUnderlay.writeOneSegment/readOneSegment vs Mieru.Spec.feed/tcpSeal")
 			c.Correspondence("spec-udp-open/spec-udp-seal: PacketUnderlay.writeOneSegment/readOneSegment vs Mieru.Spec.udpOpen/udpSeal")
 			c.Correspondence("spec-assoc-wrap/unwrap: apis/common.PacketOverStreamTunnel vs Mieru.Spec.assocWrap/assocUnwrap")
@@ -1250,6 +1320,27 @@ func init() {
 				{Layout: "l", Proto: 10, SID: 7, Seq: 2, Mode: 4, Rot: 48, PayloadLen: 4096, PayloadSeed: 3},
 				{Layout: "s", Proto: 4, SID: 7, Seq: 3},
 			}})
+
+			// cipher level at arbitrary instants (incl. slot boundaries), nonce carries included
+			for i := 0; i < c.N(60, 800); i++ {
+				u, p := c09RandCred(c)
+				ns := bounds[c.Rand.Intn(len(bounds))]
+				if c.Rand.Intn(2) == 0 {
+					ns = c.Rand.Int63n(4e18)
+				}
+				var sz []int
+				for j := 0; j < 2+c.Rand.Intn(5); j++ {
+					sz = append(sz, []int{0, 1, 32, c.Rand.Intn(2000)}[c.Rand.Intn(4)])
+				}
+				n0 := make([]byte, 24)
+				c.Rand.Read(n0)
+				if c.Rand.Intn(3) == 0 {
+					for j := 24 - 1 - c.Rand.Intn(10); j < 24; j++ {
+						n0[j] = 0xff // the sequence crosses a carry
+					}
+				}
+				c09Run(c, c09Case{Kind: "cipher-seq", User: u, Pass: p, UnixNs: ns, Sizes: sz, ChunkSeed: c.Rand.Int63(), Nonce: core.Hex(n0)})
+			}
 
 			// 4. UDP associate
 			for i := 0; i < c.N(40, 400); i++ {
